@@ -81,6 +81,44 @@ func modeCond(cond ssa.Value, m Mode) (bool, bool) {
 		}
 		return false, false
 	}
+	if ph, ok := c.(*ssa.Phi); ok {
+		// a boolean joined from several edges (quoted := jsonMode || noColor): its value over the edges that the mode
+		// leaves feasible
+		if modeCondBusy[ph] {
+			return false, false
+		}
+		modeCondBusy[ph] = true
+		defer delete(modeCondBusy, ph)
+		have, val := false, false
+		for i, e := range ph.Edges {
+			pr := ph.Block().Preds[i]
+			feas := false
+			for _, sx := range feasibleSuccs(pr, m) {
+				if sx == ph.Block() {
+					feas = true
+				}
+			}
+			if !feas {
+				continue
+			}
+			var ev bool
+			if k, isC := constBool(e); isC {
+				ev = k
+			} else if v, ok := modeCond(e, m); ok {
+				ev = v
+			} else {
+				return false, false
+			}
+			if have && ev != val {
+				return false, false
+			}
+			have, val = true, ev
+		}
+		if have {
+			return val != neg, true
+		}
+		return false, false
+	}
 	if cl, ok := c.(*ssa.Call); ok {
 		if r := modeConstOf(cl, m, 0); r != nil && r.Value != nil && r.Value.Kind() == constant.Bool {
 			return constant.BoolVal(r.Value) != neg, true
@@ -103,6 +141,8 @@ func modeCond(cond ssa.Value, m Mode) (bool, bool) {
 	}
 	return false, false
 }
+
+var modeCondBusy = map[*ssa.Phi]bool{}
 
 // modeConstOf: the constant a call of a private helper over the PrintCtx returns in mode m, when the helper's
 // decision is made by the mode bits alone (every branch on the way to its return folds under the mode).
